@@ -142,7 +142,11 @@ impl TypeDefinition {
             Self::type_definition_static_storage_config::<S>(config, static_config);
 
         let static_storage = match
-                <<S::StaticStorage as iceoryx2_cal::static_storage::StaticStorage>::Builder as NamedConceptBuilder::<S::StaticStorage>>::new(name).config(&static_storage_config).open(Duration::ZERO) {
+                <<S::StaticStorage as iceoryx2_cal::static_storage::StaticStorage>::Builder as NamedConceptBuilder::<S::StaticStorage>>::new(name).config(&static_storage_config)
+                    // an opener never owns the type definition of the live service; the last user
+                    // acquires the ownership in ServiceState::drop()
+                    .has_ownership(false)
+                    .open(Duration::ZERO) {
                     Ok(static_storage) => static_storage,
                     Err(StaticStorageOpenError::InsufficientPermissions) => {
                         fail!(from self, with ServiceOpenError::InsufficientPermissions,
@@ -165,8 +169,6 @@ impl TypeDefinition {
                             "{msg} due to an internal failure while opening the type definition storage. [{e:?}]");
                     }
                 };
-
-        static_storage.release_ownership();
 
         Ok(Some(TypeDefinitionStorage {
             storage: static_storage,
@@ -195,7 +197,12 @@ impl TypeDefinition {
         let required_schema_content = self.read_schema_file(config)?;
 
         let static_storage = match
-                <<S::StaticStorage as iceoryx2_cal::static_storage::StaticStorage>::Builder as NamedConceptBuilder::<S::StaticStorage>>::new(name).config(&static_storage_config).open(Duration::ZERO) {
+                <<S::StaticStorage as iceoryx2_cal::static_storage::StaticStorage>::Builder as NamedConceptBuilder::<S::StaticStorage>>::new(name).config(&static_storage_config)
+                    // an opener never owns the type definition of the live service, otherwise every
+                    // error path below would remove it; the last user acquires the ownership in
+                    // ServiceState::drop()
+                    .has_ownership(false)
+                    .open(Duration::ZERO) {
                     Ok(static_storage) => static_storage,
                     Err(StaticStorageOpenError::InsufficientPermissions) => {
                         fail!(from self, with ServiceOpenError::InsufficientPermissions,
@@ -240,8 +247,6 @@ impl TypeDefinition {
             fail!(from self, with ServiceOpenError::IncompatiblePayload,
                     "{msg} since the payload defined in the provided type definition is not equal to the type definition of the service.");
         }
-
-        static_storage.release_ownership();
 
         Ok(Some(TypeDefinitionStorage {
             storage: static_storage,
